@@ -67,7 +67,7 @@ def canon_layout(ws):
     return out
 
 
-def check(ctx):
+def _check_own(ctx):
     prog = ctx.prog
     R = Roles(prog)
     io = io_effects(prog)
@@ -162,3 +162,9 @@ def check(ctx):
     roots = read_only_roots(prog)
     badr = [(g, f) for g, f in roots if io.may[f.id] & WRITE_ATOMS]
     ctx.check(len(roots) >= 50 and not badr, "reads-do-not-write", "api", "read-only calls with write effects: %s" % [short(f.id) for g, f in badr][:5])
+
+
+def check(ctx):
+    _check_own(ctx)
+    from .engine import import_rules
+    import_rules(ctx, "c04", {"scan-compensation"})
